@@ -68,8 +68,11 @@ enum Pat {
     /// the first incarnation has a timer pending (due at 1.5 s) when it shuts down at 1 s; the
     /// restart at 2.5 s spawns N tasks that sleep for 0.2 s
     RestartAfterPendingTimer,
+    /// N tasks, each with two timers for the same deadline (1 s), both polled while pending;
+    /// the one registered first is dropped at once, the task awaits the other
+    TwinTimersFirstDropped,
 }
-const PATS: [Pat; 24] = [
+const PATS: [Pat; 25] = [
     Pat::Sleepers,
     Pat::Chain,
     Pat::NotifyAll,
@@ -94,6 +97,7 @@ const PATS: [Pat; 24] = [
     Pat::SleepBehindCancelledTimer,
     Pat::SleepResetToLater,
     Pat::RestartAfterPendingTimer,
+    Pat::TwinTimersFirstDropped,
 ];
 
 #[derive(Clone, Copy, Debug, PartialEq, Eq)]
@@ -222,6 +226,26 @@ impl Module for Mo {
                             l.lock().unwrap().push((i as u32, now()));
                         });
                     }
+                }
+            }
+            Pat::TwinTimersFirstDropped => {
+                for i in 0..n {
+                    let l = self.log.clone();
+                    spawn_kind(k, async move {
+                        let a = Box::pin(sleep(Duration::from_secs(1)));
+                        let b = sleep(Duration::from_secs(1));
+                        tokio::pin!(b);
+                        let mut a = a;
+                        tokio::select! {
+                            biased;
+                            () = &mut a => {}
+                            () = &mut b => {}
+                            () = std::future::ready(()) => {}
+                        }
+                        drop(a);
+                        b.await;
+                        l.lock().unwrap().push((i as u32, now()));
+                    });
                 }
             }
             Pat::SleepResetToLater => {
@@ -640,7 +664,7 @@ impl Property for C06 {
                         Pat::NotifyThenShutdown | Pat::NotifyThenRestart | Pat::SleepersThenShutdown | Pat::StartThenShutdown => ctx.hit("shutdown_requested_in_the_event"),
                         Pat::StartStage => ctx.hit("start_stage_trigger"),
                         Pat::Sleepers => ctx.hit("timer_trigger"),
-                        Pat::SleepBehindCancelledTimer | Pat::SleepResetToLater => ctx.hit("timer_behind_cancelled_timer"),
+                        Pat::SleepBehindCancelledTimer | Pat::SleepResetToLater | Pat::TwinTimersFirstDropped => ctx.hit("timer_behind_cancelled_timer"),
                         Pat::NotifyAll => ctx.hit("message_trigger"),
                         Pat::ElementConsumes | Pat::ElementStartHook | Pat::ElementEndHook | Pat::ElementEndHookOnTimer | Pat::ElementEndHookOnStart => ctx.hit("processing_element_trigger"),
                         _ => {}
